@@ -185,6 +185,113 @@ function X(n) {
 }
 function impName(n) { return n.type === 'Literal' ? 's:' + hex(n.value) : name(n.name); }
 
+// ---- constant folding normal form (sound: literal-only operands, evaluated by V8's own operators) ----
+// esbuild folds a few literal-only expressions even without minification (-1, !0, typeof 1, "a"+"b").
+// Both the input tree and the output tree are folded to the same normal form before comparison.
+const NOFOLD = {};
+function primOf(n) {
+  if (n.type === 'Literal' && !n.regex && n.bigint === undefined) return n.value;
+  if (n.type === 'TemplateLiteral' && n.expressions.length === 0 && n.quasis[0].value.cooked !== null) return n.quasis[0].value.cooked;
+  return NOFOLD;
+}
+function litNode(v) {
+  if (v === undefined) return NOFOLD;
+  if (typeof v === 'number' && !Number.isFinite(v)) return NOFOLD;
+  if (typeof v === 'number' || typeof v === 'string' || typeof v === 'boolean' || v === null) return { type: 'Literal', value: v };
+  return NOFOLD;
+}
+function foldNode(n) {
+  if (n.type === 'UnaryExpression') {
+    const a = primOf(n.argument);
+    if (a === NOFOLD) return n;
+    let v;
+    switch (n.operator) {
+      case '-': v = -a; break; case '+': v = +a; break; case '!': v = !a; break; case '~': v = ~a; break;
+      case 'typeof': v = typeof a; break; default: return n;
+    }
+    const l = litNode(v); return l === NOFOLD ? n : l;
+  }
+  if (n.type === 'BinaryExpression') {
+    if (n.left.type === 'PrivateIdentifier') return n;
+    const a = primOf(n.left), b = primOf(n.right);
+    if (a === NOFOLD || b === NOFOLD) return n;
+    let v;
+    switch (n.operator) {
+      case '+': v = a + b; break; case '-': v = a - b; break; case '*': v = a * b; break; case '/': v = a / b; break;
+      case '%': v = a % b; break; case '**': v = a ** b; break; case '<<': v = a << b; break; case '>>': v = a >> b; break;
+      case '>>>': v = a >>> b; break; case '&': v = a & b; break; case '|': v = a | b; break; case '^': v = a ^ b; break;
+      case '==': v = a == b; break; case '!=': v = a != b; break; case '===': v = a === b; break; case '!==': v = a !== b; break;
+      case '<': v = a < b; break; case '>': v = a > b; break; case '<=': v = a <= b; break; case '>=': v = a >= b; break;
+      default: return n;
+    }
+    const l = litNode(v); return l === NOFOLD ? n : l;
+  }
+  return n;
+}
+function foldAst(n) {
+  if (Array.isArray(n)) { for (let i = 0; i < n.length; i++) if (n[i] && typeof n[i] === 'object') n[i] = foldAst(n[i]); return n; }
+  if (!n || typeof n.type !== 'string') return n;
+  for (const k of Object.keys(n)) {
+    const v = n[k];
+    if (v && typeof v === 'object' && k !== 'regex' && k !== 'value') n[k] = foldAst(v);
+  }
+  return foldNode(n);
+}
+// drop expression statements that are primitive literals after folding (esbuild removes them; they have no effect)
+function dropPure(n) {
+  if (Array.isArray(n)) {
+    for (let i = n.length - 1; i >= 0; i--) {
+      const s = n[i];
+      if (s && s.type === 'ExpressionStatement' && s.directive === undefined && primOf(s.expression) !== NOFOLD) n.splice(i, 1);
+      else if (s && typeof s === 'object') dropPure(s);
+    }
+    return;
+  }
+  if (!n || typeof n !== 'object') return;
+  for (const k of Object.keys(n)) { const v = n[k]; if (v && typeof v === 'object' && k !== 'regex' && k !== 'value') dropPure(v); }
+}
+// (() => { body })()  ->  body   (format=iife wrapper)
+function unwrapIife(ast) {
+  const b = ast.body.filter(s => s.type !== 'EmptyStatement');
+  if (b.length === 1 && b[0].type === 'ExpressionStatement' && b[0].expression.type === 'CallExpression' &&
+      b[0].expression.arguments.length === 0 && b[0].expression.callee.type === 'ArrowFunctionExpression' &&
+      b[0].expression.callee.params.length === 0 && !b[0].expression.callee.async && b[0].expression.callee.body.type === 'BlockStatement') {
+    ast.body = b[0].expression.callee.body.body;
+    return true;
+  }
+  return false;
+}
+
+// esbuild prints `export default E` as `var in_default = E; export { in_default as default }` and
+// `export const v = E` as `const v = E; export { v }` when it converts to format=esm: same module, same exports.
+function normExports(ast) {
+  const body = ast.body;
+  for (let i = body.length - 1; i >= 0; i--) {
+    const s = body[i];
+    if (s.type !== 'ExportNamedDeclaration' || s.declaration || s.source) continue;
+    s.specifiers = s.specifiers.filter(sp => {
+      if (sp.local.type !== 'Identifier' || sp.exported.type !== 'Identifier') return true;
+      const local = sp.local.name, exported = sp.exported.name;
+      for (let j = 0; j < body.length; j++) {
+        const d = body[j];
+        if (d.type === 'VariableDeclaration' && d.declarations.length === 1 && d.declarations[0].id.type === 'Identifier' &&
+            d.declarations[0].id.name === local) {
+          if (exported === 'default' && d.kind === 'var' && d.declarations[0].init && /_default$/.test(local)) {
+            body[j] = { type: 'ExportDefaultDeclaration', declaration: d.declarations[0].init };
+            return false;
+          }
+          if (exported === local) { body[j] = { type: 'ExportNamedDeclaration', declaration: d, specifiers: [], source: null }; return false; }
+        }
+        if ((d.type === 'FunctionDeclaration' || d.type === 'ClassDeclaration') && d.id && d.id.name === local && exported === local) {
+          body[j] = { type: 'ExportNamedDeclaration', declaration: d, specifiers: [], source: null }; return false;
+        }
+      }
+      return true;
+    });
+    if (s.specifiers.length === 0) body.splice(i, 1);
+  }
+}
+
 function parseOne(item) {
   const res = {};
   const kind = item.kind === 'module' ? 'module' : 'script';
@@ -197,7 +304,12 @@ function parseOne(item) {
       allowAwaitOutsideFunction: kind === 'module',
     });
     res.acorn = true;
-    if (want !== 'valid') res.sexp = X(ast);
+    if (item.unwrap === 'iife') res.unwrapped = unwrapIife(ast);
+    if (kind === 'module') normExports(ast);
+    if (want !== 'valid') {
+      res.sexp = X(ast);
+      if (item.fold) { foldAst(ast); dropPure(ast); const f = X(ast); if (f !== res.sexp) res.sexpf = f; }
+    }
   } catch (e) {
     res.acorn = false;
     res.aerr = String(e && e.message);
